@@ -151,6 +151,10 @@ pub async fn worker(
 					}
 				})
 				.map(Some)?;
+
+			// a new watcher has nothing registered yet: forget the paths of the previous one so
+			// that all configured paths are added to it below
+			pathset.clear();
 		}
 
 		// now let's calculate which paths we should add to the watch, and which we should drop:
